@@ -34,7 +34,7 @@ func chains(n *html.Node, cur string, out map[string]string) {
 
 func init() {
 	register(&Prop{
-		ID: "C07",
+		ID:   "C07",
 		Rule: "G-article pages with lists nested up to 4 levels (content only in an inner list, lists with dropped siblings, lists interleaved with media and skipped elements, paragraphs/pre/quotes inside list items, quotes inside lists) and data tables (thead/caption, inline markup, images, links in cells). For every retained token the chain of ul/ol/li/blockquote/pre ancestors in Result.Node is compared with the chain in the harness' own parse of the source; every retained data table is compared row by row and cell by cell with the source table. Non-trivial = a retained token with a non-empty chain or a retained table; distinct = distinct (chain shape) and (table rows x cols).",
 		Assumptions: []string{
 			"the source chain is computed on the same x/net/html parse, so parser normalisation is shared",
